@@ -1,7 +1,7 @@
 """C02 - complete models."""
 from mirlib import facts, flow, ir, symx
 from mirlib.pat import ANY, ADT, C, CLOS, F, IDX, K, OP, P, TUP, V, match
-from rules import kernel, semantics, shared
+from rules import deps, kernel, semantics, shared
 
 EXPLANATION = """
 Decided: S.T-term (is_truth_value, is_true, compare_inf, cmp_information and the biodivine counterparts), S.F-full for
@@ -10,7 +10,11 @@ C02.F-check (the filter predicate is a conjunction over all positions - `all` ov
 compare_inf(v[i], FULL(ac[i], v)) where the same i selects the candidate value and the acceptance condition, and the
 restriction is built from the candidate itself), C02.F-seed (candidates are the three-valued refinements of the grounded
 interpretation of the same object; with C20.T-digits the first candidate is that interpretation itself),
-S.X-exhaust on the candidate chains (nothing short-circuits the enumeration)."""
+S.X-exhaust on the candidate chains (nothing short-circuits the enumeration).
+Dependency suites (rules/deps.py; each obligation is a necessary condition of this property, reported under its own rule id):
+kernel-build (C07.T-conn, C07.T-ite0, C07.R-ite, S.F-memo ite_cache, S.R-node, S.R-new, S.W-store, C06.W-ctor), kernel-restrict
+(C07.R-restrict, S.F-memo restrict_cache) and translation (C09.A-wire, C09.A-term, C09.F-order, C09.A-name, C01.A-hybrid): an answer
+is computed on diagrams built by these functions, on every back-end."""
 NOT_DECIDED = "That no complete model lies outside the refinements of the grounded interpretation (a theorem about ADFs, not about code); duplicate-freeness beyond C20."
 TECHNIQUE = "static analysis: expression reconstruction over MIR (index/provenance agreement), finite-domain closure tables, exhaustive-consumption rule"
 
@@ -110,3 +114,4 @@ def check(ctx):
         ctx.rule(rule, "candidate sources flow only through non-short-circuiting adaptors / exhaustive consumers")
         nx = semantics.X_exhaust(ctx, lib, rule, ("ThreeValuedInterpretationsIterator::new", "from_bdd"), only_fns={"Adf::complete"})
         ctx.floor(rule, "complete chains", nx, 2)
+        deps.semantics_base(ctx, lib)
